@@ -120,16 +120,31 @@ impl Cx {
         self.log.borrow_mut().push(id);
     }
     /// fallible user action
-    pub fn fact<L: FromPos, T>(&self, id: u32, s: String) -> Result<String, ParseError<L, T, String>> {
+    pub fn fact<L: FromPos, T, E: MkErr>(&self, id: u32, s: String) -> Result<String, ParseError<L, T, E>> {
         self.step();
         self.log.borrow_mut().push(id);
         if s.contains('!') {
-            Err(ParseError::User { error: format!("E{}:{}", id, s) })
+            Err(ParseError::User { error: E::mk(format!("E{}:{}", id, s)) })
         } else if s.contains('?') {
             Err(ParseError::UnrecognizedEof { location: L::from_pos(777), expected: vec![format!("Q{}", id)] })
         } else {
             Ok(s)
         }
+    }
+}
+
+/// user error types a grammar may declare (`String`) or get by default (`&'static str`)
+pub trait MkErr {
+    fn mk(s: String) -> Self;
+}
+impl MkErr for String {
+    fn mk(s: String) -> Self {
+        s
+    }
+}
+impl MkErr for &'static str {
+    fn mk(s: String) -> Self {
+        Box::leak(s.into_boxed_str())
     }
 }
 
